@@ -284,6 +284,61 @@ void h_heap_destroy(void) {
 }
 #endif
 
+#ifdef HARNESS_h_find_free
+/* C01/C08: the page search of the allocation slow path (mi_find_free_page -> mi_page_queue_find_free_ex): the page it returns belongs
+   to the heap, is of the requested size class, has a block on its free list and sits at the front of its size queue; a page is
+   parked in the full queue only when it has neither a free block nor room to grow (so no free memory becomes unreachable for
+   allocation); no page is lost or duplicated; NULL only after a fresh page could not be obtained (twice). */
+static mi_block_t MARK[NP + 1];
+static uint8_t pst[NP];               /* 0 full, 1 has a free block, 2 can be extended */
+static int n_fresh, n_extend;
+void stub_extend_free(mi_heap_t* heap, mi_page_t* page, mi_tld_t* tld) { CHECK(page->capacity < page->reserved && page->free == NULL, "only a page with room and an empty free list is extended"); page->capacity = page->reserved; page->free = &MARK[NP]; n_extend++; }
+mi_page_t* stub_page_fresh(mi_heap_t* heap, mi_page_queue_t* pq) {
+  CHECK(heap == &A && pq == &A.pages[BIN], "fresh page for this heap and size class"); n_fresh++;
+  if (n_fresh > 1 || !FRESH_OK) return NULL;        /* concrete answer (driver enumerates): keeps the queue head concrete in the retry */
+  init_page(&PB[0], &A, false); PB[0].used = 0; PB[0].free = &MARK[NP]; mi_page_queue_push(&A, pq, &PB[0]); return &PB[0]; }
+void stub_collect_retired(mi_heap_t* heap, bool force) { }
+void h_find_free(void) {
+  make_heaps();
+  { int c = PST; for (int i = 0; i < NP; i++) { pst[i] = (uint8_t)(c % 3); c /= 3; } }      /* page states are enumerated by the driver (base-3 digits of PST); flags and the fresh-page answer stay symbolic */
+  for (int i = 0; i < NP; i++) {
+    PA[i].xthread_free = (uintptr_t)(((PST + i) & 1) ? MI_NO_DELAYED_FREE : MI_USE_DELAYED_FREE);      /* empty thread-free list, concrete flag (remote frees: C02/C08 lemmas) */
+    if (pst[i] == 1) { PA[i].used = 3; PA[i].free = &MARK[i]; }
+    else if (pst[i] == 2) { PA[i].capacity = 2; PA[i].used = 2; } }
+  mi_page_t* r = mi_find_free_page(&A, QBS);
+  size_t nb = check_queue(&A, &A.pages[BIN], false), nf = check_queue(&A, &A.pages[MI_BIN_FULL], true);
+  bool got_fresh = (r == &PB[0]);
+  CHECK(nb + nf == NP + (got_fresh ? 1 : 0) && A.page_count == NP + (got_fresh ? 1 : 0), "C01: no page is lost or duplicated by the search");
+  bool all_full = true;
+  for (int i = 0; i < NP; i++) {
+    bool inb = in_queue(&A.pages[BIN], &PA[i]), inf = in_queue(&A.pages[MI_BIN_FULL], &PA[i]);
+    CHECK(inb != inf, "every page is in exactly one queue of its heap");
+    if (inf) CHECK(pst[i] == 0, "C08: only a page without a free block and without room to grow is parked in the full queue");
+    if (pst[i] != 0) all_full = false;
+  }
+  if (r != NULL) {
+    CHECK(mi_page_heap(r) == &A && r->block_size == QBS, "C01: the page found belongs to the allocating heap and to the requested size class");
+    CHECK(r->free != NULL, "C01: the page found has a block ready on its free list");
+    CHECK(!r->flags.x.in_full && A.pages[BIN].first == r, "the page found is at the front of its size queue");
+    CHECK(got_fresh == (all_full && n_fresh == 1), "a fresh page is taken exactly when no existing page has room");
+#if PST != 0 || FRESH_OK
+    WITNESS("found");
+#endif
+#if PST == 0 && FRESH_OK
+    WITNESS("fresh");
+#endif
+  } else {
+    CHECK(all_full && n_fresh == 2 && nf == NP, "NULL only when every page is full and no fresh page could be obtained (tried twice)");
+#if PST == 0 && !FRESH_OK
+    WITNESS("none");
+#endif
+  }
+  CHECK(n_extend <= 1, "at most one page is extended per search");
+  mi_page_t* d = A.pages_free_direct[_mi_wsize_from_size(QBS)];
+  CHECK(d == (A.pages[BIN].first != NULL ? A.pages[BIN].first : (mi_page_t*)&_mi_page_empty), "direct small-page table points at the first page of the size queue");
+}
+#endif
+
 #ifdef HARNESS_h_heap_delete
 /* C10: mi_heap_delete keeps every live block valid: pages go to the backing heap exactly when the two heaps store the same kind of
    objects in the same arena (mi_heap_absorb: C10.heap_absorb), otherwise they are abandoned for later adoption
